@@ -5,7 +5,7 @@
    order of the encoded keys by C10 — over the key alphabet; revision 0 = index record.
    Client level: value = Some v (written) | None (deleted); engine level: the marker "tombstone" stands for None. *)
 From KB Require Import Base.Cases Model.Coder Model.ReadSys Model.C03Cases
-  Proofs.Coder Proofs.ReadSys Proofs.ReadSysSnap Proofs.ReadSysThm Proofs.ReadSysSpec Proofs.ReadSysC03.
+  Proofs.Coder Proofs.ReadSys Proofs.ReadSysSnap Proofs.ReadSysThm Proofs.ReadSysSpec Proofs.ReadSysPart Proofs.ReadSysC03 Proofs.ReadSysC13 Proofs.ReadSysC13b Proofs.ReadSysC03b.
 Local Open Scope N_scope.
 
 (* point read: Get(k, rv) returns the newest version <= rv of k (rv = 0: the newest stored version) unless it is a deletion *)
@@ -82,16 +82,73 @@ Theorem C03_bytes : forall (V : list (@vrec bytes)) cur k r v R, wf_store V -> a
 Proof. exact get_reads_back. Qed.
 Print Assumptions C03_bytes.
 
-(* ---------- the executable oracle ---------- *)
-(* full statement (not proved as one lemma): a case the model reproduces entirely (responses from the dump,
-   dump = layout of the history up to permitted compaction removals) is never an unlisted violation *)
-Definition C03_oracle_sound_full_statement : Prop :=
-  forall c, c03_check c = true -> c03_oracle c <> Some 0.
+(* ---------- the executable check and oracle ---------- *)
+(* the executable layout test of a dump against the acknowledged history implies the removal rule of C03_stable
+   (index records aside), and hence: the snapshot of the dump at any revision not below the floor is the
+   client-level snapshot of the history, marker values read as deletions *)
+Theorem C03_layout_compacted : forall d hv F, hist_pos hv -> compact_layout_ok d hv F = true ->
+  dump_wf d = true /\ compacted (enc_store hv) (positive (versions_of (data_of d))) F.
+Proof. exact layout_compacted. Qed.
+Print Assumptions C03_layout_compacted.
 
-(* proved part, read level: on the engine image of any well-formed client history without marker values the
+Theorem C03_dump_snapshot : forall d hv F R, hist_pos hv -> functional hv -> compact_layout_ok d hv F = true -> F <= R ->
+  snapshot (versions_of (data_of d)) R = snapshot_spec (marker_as_deletion hv) R.
+Proof. exact dump_snapshot. Qed.
+Print Assumptions C03_dump_snapshot.
+
+(* only records under the data prefix are iterated between two internal keys, forwards (List, Count, streams) and
+   backwards (the point read) *)
+Theorem C03_iter_data : forall s st en, has_prefix magic st = true -> has_prefix magic en = true -> iter s st en = iter (data_of s) st en.
+Proof. exact iter_data_any. Qed.
+Print Assumptions C03_iter_data.
+
+(* a single-partition stream the model reproduces: well-shaped, key-values exactly the in-range snapshot in key order *)
+Theorem C03_stream_single : forall d fv cur a b rv out, dump_wf d = true -> alpha a -> alpha b -> bcmp a b = Lt ->
+  floor_check fv (eff rv cur) = FOk ->
+  stream_check (stream_model d fv single_part cur (encode a 0) (encode b 0) rv) out = true ->
+  stream_shape (eff rv cur) out = true /\ stream_kvs out = in_range a b (snapshot (versions_of (data_of d)) (eff rv cur)).
+Proof. exact stream_single_dump. Qed.
+Print Assumptions C03_stream_single.
+
+(* one read of one phase: if the model reproduces the response from the dump, the response is the function of the
+   history's snapshot that the property prescribes (Get incl. revision 0 when nothing above cur is stored, List with
+   and without limit, Count, ListByStream) *)
+Theorem C03_read_char : forall ck compat srt parts ph hv F, (srt = false -> parts = single_part) -> hist_pos hv -> functional hv ->
+  compact_layout_ok (ph_dump ph) hv F = true -> floor_rec_ok ck (ph_dump ph) F = true -> F < two64 -> ph_cur ph < two64 ->
+  forall q, read_alpha q -> read_parts_ok parts q -> in_scope compat hv (ph_cur ph) F q = true -> read_check ck compat parts ph q = true ->
+  read_char srt (fun R => snapshot_spec (marker_as_deletion hv) R) (ph_cur ph) q.
+Proof. exact read_char_of_check. Qed.
+Print Assumptions C03_read_char.
+
+Theorem C03_read_char_meets : forall srt hv' cur q, read_char srt (snapshot_spec hv') cur q -> read_meets srt in_range hv' cur q = true.
+Proof. exact char_meets. Qed.
+Print Assumptions C03_read_char_meets.
+
+(* the same read in two consecutive phases: characterised responses over snapshots that agree up to the earlier
+   phase's reported revision give the same answer *)
+Theorem C03_stable_reads : forall srt compat hv1 hv2 cur1 cur2 Fp F2 T1 T2, Fp <= F2 -> (forall R, R <= cur1 -> T2 R = T1 R) ->
+  forall r1 r2,
+  (forall q, In q r1 -> in_scope compat hv1 cur1 Fp q = true -> read_char srt T1 cur1 q) ->
+  (forall q, In q r2 -> in_scope compat hv2 cur2 F2 q = true -> read_char srt T2 cur2 q) ->
+  stable_verdict srt compat hv1 hv2 cur1 cur2 F2 r1 r2 = true.
+Proof. exact stable_ok. Qed.
+Print Assumptions C03_stable_reads.
+
+(* the whole case, by induction over the phases with the running history and floor: a case the model reproduces
+   entirely is never an unlisted violation (None, or the signature of finding C03-F1 / C03-F2).
+   c03_valid: acknowledged writes have positive, pairwise distinct (key, revision); writes acknowledged after a
+   phase have revisions above the revision it reported; 64-bit floors and revisions; keys and range bounds of the
+   reads over the alphabet; the engine's recorded answer for the range of every read is a tiling (always so for
+   an engine reporting one partition) — facts the boolean check does not test.  The engine's partition function
+   is the recorded one (c_calls), as in C13 *)
+Theorem C03_oracle_sound : forall c, c03_valid c -> c03_check c = true -> c03_oracle c <> Some 0.
+Proof. exact c03_oracle_sound. Qed.
+Print Assumptions C03_oracle_sound.
+
+(* read level, without marker values: on the engine image of any well-formed client history without marker values the
    oracle accepts what the model answers to Get (explicit revision), List and Count *)
 Theorem C03_oracle_sound_partial : forall Vs compat fv cur floor q, wf_store Vs -> no_marker Vs -> read_valid fv cur q ->
-  read_is_model Vs fv cur q -> read_verdict Vs compat cur floor q = None.
+  read_is_model Vs fv cur q -> read_verdict false Vs compat cur floor q = None.
 Proof. exact c03_read_verdict_none. Qed.
 Print Assumptions C03_oracle_sound_partial.
 
@@ -178,4 +235,46 @@ Proof.
       exists (w_a, 103, [121]). unfold vr_rev, vr_key; cbn [fst snd In]. repeat split; try lia. tauto.
     + intros x y [<-|[<-|[<-|[]]]] Nx Px [<-|[<-|[<-|[]]]] Ky Py Lt N'; unfold vr_rev in *; cbn [fst snd] in *; try lia;
         try (apply Nx; cbn; tauto).
+Qed.
+
+(* non-vacuity of C03_oracle_sound: a two-phase case (create, create, update, delete; then a create and a compaction at
+   103) whose responses are computed by the model is valid and passes the check *)
+Definition x_ck : bytes := [47; 114; 47; 99; 107].
+Definition x_dump1 : raw_store :=
+  raw_of [(w_a, 0, be64 103); (w_a, 101, [120]); (w_a, 103, [122]); (w_b, 0, be64 104 ++ [0]); (w_b, 102, [121]); (w_b, 104, tombstone)].
+Definition x_dump2 : raw_store :=
+  (x_ck, be64 103) :: raw_of [(w_a, 0, be64 103); (w_a, 103, [122]); (w_b, 0, be64 105); (w_b, 102, [121]); (w_b, 104, tombstone); (w_b, 105, [119])].
+Definition x_stream (r : stream_res) : list smsg := match r with StOk pp t => concat pp ++ [t] | StPanic => [] end.
+Definition x_reads (d : raw_store) (cur : N) : list c03_read :=
+  let fv := lookup x_ck d in
+  let lo := [47; 114; 47] in let hi := [47; 114; 48] in
+  [QGet w_a 101 (get_model d cur w_a 101); QGet w_b 103 (get_model d cur w_b 103); QGet w_a 0 (get_model d cur w_a 0);
+   QList lo hi 103 1 (list_model d fv single_part cur lo hi 103 1); QList lo hi 0 0 (list_model d fv single_part cur lo hi 0 0);
+   QCount lo hi (count_model d fv single_part true cur lo hi);
+   QStream lo hi 103 (x_stream (stream_model d fv single_part cur (encode lo 0) (encode hi 0) 103))].
+Definition x_case : c03_case :=
+  mk_c03 x_ck true []
+    [mk_phase [WCreate w_a [120] 101 true; WCreate w_b [121] 102 true; WUpdate w_a [122] 101 103 true; WDelete w_b 102 104 true;
+               WCreate w_a [1] 105 false] 0 x_dump1 104 (x_reads x_dump1 104);
+     mk_phase [WCreate w_b [119] 105 true] 103 x_dump2 105 (x_reads x_dump2 105)].
+
+Example C03_oracle_sound_inhabited : c03_valid x_case /\ c03_check x_case = true /\ c03_oracle x_case = None.
+Proof.
+  split; [|split; vm_compute; reflexivity].
+  assert (FN : forall l : list (@vrec (option bytes)), NoDup (map (fun x => (vr_key x, vr_rev x)) l) -> functional l).
+  { intros l ND x y Hx Hy Ek Er. destruct x as [[k r] a], y as [[k' r'] a']. cbn in Ek, Er. subst k' r'.
+    induction l as [|z t IH]; [destruct Hx|]. inversion ND as [|? ? NI NDt]; subst.
+    destruct Hx as [->|Hx], Hy as [E|Hy].
+    - exact E.
+    - exfalso. apply NI. apply (in_map (fun x => (vr_key x, vr_rev x)) _ _ Hy).
+    - exfalso. apply NI. subst z. apply (in_map (fun x => (vr_key x, vr_rev x)) _ _ Hx).
+    - apply IH; assumption. }
+  assert (RA : forall d cur, Forall read_alpha (x_reads d cur)).
+  { intros d cur. repeat constructor; cbn; unfold two64; lia. }
+  assert (PK : forall d cur, Forall (read_parts_ok single_part) (x_reads d cur)).
+  { intros d cur. repeat constructor; cbn; intros L; apply single_valid; try exact L; repeat constructor. }
+  unfold c03_valid, x_case. change (c03_parts _) with single_part. cbn [c_phases phases_valid ph_ops ph_floor ph_cur ph_reads app].
+  repeat split; try apply RA; try apply PK; try (vm_compute; reflexivity); try (repeat constructor; cbn; lia).
+  - apply FN. vm_compute. repeat constructor; cbn; intuition discriminate.
+  - apply FN. vm_compute. repeat constructor; cbn; intuition discriminate.
 Qed.
